@@ -91,6 +91,7 @@ def corpus(ctx, prop):
     if not os.path.exists(path) or os.environ.get("JBV_SKIP_CORPUS"):
         return
     r = subprocess.run([os.path.join(VERIF, "tools", "run_corpus.py"), prop], cwd=VERIF,
+                       env=dict(os.environ, JBV_CORPUS_PROP=prop),
                        stdout=subprocess.PIPE, stderr=subprocess.STDOUT, text=True)
     rows = re.findall(r"^(\S+)\s+expect=(\w+)\s+got=(\w+)\s+(ok|MISMATCH)", r.stdout, re.M)
     ctx.units["self_test_corpus"] = {
